@@ -288,7 +288,10 @@ class Matcher(object):
         elif self.supports("positions"):
             return [Span(pos) for pos in self.value_as("positions")]
         else:
-            raise Exception("Field does not support spans")
+            # e.g. an Every or a numeric term inside a Sequence/SpanNear: the
+            # query cannot be run, which is the caller's error
+            from whoosh.query.qcore import QueryError
+            raise QueryError("Field does not support spans")
 
     def skip_to(self, id):
         """Moves this matcher to the first posting with an ID equal to or
@@ -398,6 +401,12 @@ class NullMatcherClass(Matcher):
         pass
 
     def all_ids(self):
+        return []
+
+    def supports(self, astype):
+        return False
+
+    def spans(self):
         return []
 
     def copy(self):
@@ -535,7 +544,9 @@ class ListMatcher(Matcher):
         return decoder(self.value())
 
     def supports(self, astype):
-        return self._format.supports(astype)
+        # A list of document numbers without a format (Every, a filter) has
+        # no per-posting data
+        return self._format is not None and self._format.supports(astype)
 
     def next(self):
         self._i += 1
@@ -606,8 +617,9 @@ class LeafMatcher(Matcher):
         elif self.supports("positions"):
             return [Span(pos) for pos in self.value_as("positions")]
         else:
-            raise Exception("Field does not support positions (%r)"
-                            % self.term())
+            from whoosh.query.qcore import QueryError
+            raise QueryError("Field does not support positions (%r)"
+                             % (self.term(),))
 
     def supports_block_quality(self):
         return self.scorer and self.scorer.supports_block_quality()
